@@ -6,43 +6,78 @@ from checks.subs_common import take
 LEVEL = "exploration"
 
 
+CASE_MS = 8000          # a request that does not return within this time counts as a hang
+MAX_CULPRITS = 25       # per batch: after that many cases that hang / abort the rest of the batch is not run
+
+
 def run_batches(ctx, cases, nproc):
-    """in-process batches in parallel; a batch whose process dies is re-run one process per case"""
+    """In-process batches in parallel (VERIF_CASE_MS watchdog inside the harness). When a batch process dies (stack
+    overflow, abort) or is ended by the watchdog (hang), the case it was running is re-run on its own in child mode
+    (which turns the step that did not return into a record) and the rest of the batch continues in a new process."""
     build_harness()
     n = max(1, min(nproc, len(cases) // 50 + 1))
     size = (len(cases) + n - 1) // n
     parts = [cases[i:i + size] for i in range(0, len(cases), size)]
-    env = dict(os.environ, VERIF_OUT=OUT, VERIF_CHILD_MS="20000")
+    env = dict(os.environ, VERIF_OUT=OUT, VERIF_CHILD_MS=str(CASE_MS), VERIF_CASE_MS=str(CASE_MS))
+
+    def write(path, cs):
+        with open(path, "w") as f:
+            for c in cs:
+                f.write(json.dumps(c) + "\n")
 
     def one(k):
-        cp = os.path.join(ctx.dir, "svc.%d.cases.ndjson" % k)
-        op = os.path.join(ctx.dir, "svc.%d.obs.ndjson" % k)
-        with open(cp, "w") as f:
-            for c in parts[k]:
-                f.write(json.dumps(c) + "\n")
-        p = subprocess.run([harness_bin(), "run", "services", cp, op], env=env, cwd=OUT, stdout=subprocess.PIPE, stderr=subprocess.PIPE, timeout=3000)
-        mode = "run"
-        if p.returncode != 0:
-            mode = "child"
-            p = subprocess.run([harness_bin(), "child", "services", cp, op], env=env, cwd=OUT, stdout=subprocess.PIPE, stderr=subprocess.PIPE, timeout=6000)
-            if p.returncode != 0:
-                raise ToolError("services harness failed in child mode: %s" % p.stderr[-500:])
-        return op, mode
+        remaining = parts[k]
+        lines, culprits, rnd = [], 0, 0
+        while remaining:
+            rnd += 1
+            cp = os.path.join(ctx.dir, "svc.%d.%d.cases.ndjson" % (k, rnd))
+            op = os.path.join(ctx.dir, "svc.%d.%d.obs.ndjson" % (k, rnd))
+            write(cp, remaining)
+            p = subprocess.run([harness_bin(), "run", "services", cp, op], env=env, cwd=OUT, stdout=subprocess.PIPE, stderr=subprocess.PIPE,
+                               timeout=3000)
+            got = [l for l in open(op)] if os.path.exists(op) else []
+            if p.returncode == 0:
+                lines += got
+                break
+            done = set()
+            for l in got:
+                try:
+                    done.add(json.loads(l)["case"])
+                except Exception:
+                    pass
+            idx = next((i for i, c in enumerate(remaining) if c["case"] not in done), None)
+            lines += [l for l in got if l.endswith("\n")]
+            if idx is None:
+                break
+            culprits += 1
+            cp1 = os.path.join(ctx.dir, "svc.%d.%d.culprit.cases.ndjson" % (k, rnd))
+            op1 = os.path.join(ctx.dir, "svc.%d.%d.culprit.obs.ndjson" % (k, rnd))
+            write(cp1, [remaining[idx]])
+            p1 = subprocess.run([harness_bin(), "child", "services", cp1, op1], env=env, cwd=OUT, stdout=subprocess.PIPE, stderr=subprocess.PIPE,
+                                timeout=600)
+            if p1.returncode != 0:
+                raise ToolError("services harness failed in child mode: %s" % p1.stderr[-500:])
+            lines += [l for l in open(op1)]
+            remaining = remaining[idx + 1:]
+            if culprits >= MAX_CULPRITS and remaining:
+                ctx.notes.setdefault("batches_cut_short", []).append({"batch": k, "cases_not_run": len(remaining)})
+                break
+        return lines, culprits
 
     with concurrent.futures.ThreadPoolExecutor(max_workers=n) as ex:
         res = list(ex.map(one, range(len(parts))))
     obs = os.path.join(ctx.dir, "services.obs.ndjson")
     by = {c["case"]: c for c in cases}
     with open(obs, "w") as out:
-        for op, mode in res:
-            for line in open(op):
+        for lines, _ in res:
+            for line in lines:
                 o = json.loads(line)
                 if "req" not in o:      # synthesised by the child runner for a step that did not return
                     c = by[o["case"]]
                     o = {"case": o["case"], "i": o["i"], "req": c["steps"][o["i"] - 1] if o["i"] <= len(c["steps"]) else {"svc": "process"},
                          "kind": "none", "fail": o.get("fail", "abort"), "site": o.get("site", "abort"), "probe": False, "ticked": False}
                 out.write(json.dumps(o) + "\n")
-    ctx.notes["batches"] = [m for _, m in res]
+    ctx.notes["cases_that_hung_or_aborted"] = sum(c for _, c in res)
     return obs
 
 
@@ -57,11 +92,19 @@ def run(ctx):
     singles = parse_case_lines(r.printed)
     log("[tlc] request universe: %d requests" % len(singles))
     singles = take(singles, 4000 if q else 10 ** 9, ctx.seed)
-    nseq = 300 if q else 4000
-    r2 = run_tlc(ctx.sub("seq"), "GenServicesSeq", {"MaxLen": 4}, spec="SSpec", invariants=["Emit"], workers=4, timeout=900,
+    # every behaviour of two likely-to-succeed requests on one session
+    r3 = run_tlc(ctx.sub("pairs"), "GenServicesPairs", {}, spec="Spec", invariants=["Emit"], workers=4, timeout=900)
+    if r3.error:
+        raise ToolError("TLC (pairs): %s" % r3.error)
+    ctx.cov["tlc_runs"].append({"name": "pairs", "generated": r3.generated, "distinct": r3.distinct, "wall_s": round(r3.wall, 1)})
+    ctx.cov["states"] += r3.distinct
+    pairs = parse_case_lines(r3.printed)
+    log("[tlc] pairs of likely-to-succeed requests: %d" % len(pairs))
+    nseq = 400 if q else 6000
+    r2 = run_tlc(ctx.sub("seq"), "GenServicesSeq", {"MaxLen": 5}, spec="SSpec", invariants=["Emit"], workers=4, timeout=900,
                  simulate="num=%d" % max(40, nseq // 4), seed=ctx.seed)
     seqs = take(parse_case_lines(r2.printed), nseq, ctx.seed)
-    cases = singles + seqs
+    cases = singles + pairs + seqs
     if ctx.replay:
         cases = [json.load(open(ctx.replay))["case"]]
     for i, c in enumerate(cases):
@@ -82,7 +125,8 @@ def run(ctx):
     ctx.cov["traces_validated_against_impl"] += len(cases)
     ctx.cov["exhaustive"] = not q
     ctx.cov["rule"] = ("requests of the universe of Services.tla (%d services x adversarial parameter classes, %d requests in total; quick: a "
-                       "seeded sample) sent one per fresh activated session, plus TLC-simulated sequences of 4 requests on one session; "
+                       "seeded sample) sent one per fresh activated session, plus EVERY pair of likely-to-succeed requests (Live x Live of Services.tla) and "
+                       "TLC-simulated sequences of 5 requests (3 of 4 drawn from Live) on one session; "
                        "after every request two subscription timer ticks and a probe Read; distinct by request sequence; every case is "
                        "non-trivial (each request carries at least one adversarial parameter class or follows one)" % (len(svcs), r.distinct))
     ctx.notes["services_covered"] = sorted(svcs)
